@@ -29,6 +29,7 @@ pub const EDITS: &[&str] = &[
     "type-spv",
     "type-blockstake",
     "type-atr",
+    "type-atr-plain-output",
     "type-issuance",
     "type-fee",
     "type-vip",
@@ -139,7 +140,7 @@ pub fn make_hostile(w: &mut World, ledger: &RefLedger, spent: &[SlipRef], edit: 
             let ty = match e {
                 "type-spv" => TransactionType::SPV,
                 "type-blockstake" => TransactionType::BlockStake,
-                "type-atr" => TransactionType::ATR,
+                "type-atr" | "type-atr-plain-output" => TransactionType::ATR,
                 "type-issuance" => TransactionType::Issuance,
                 "type-fee" => TransactionType::Fee,
                 _ => TransactionType::Vip,
@@ -153,7 +154,9 @@ pub fn make_hostile(w: &mut World, ledger: &RefLedger, spent: &[SlipRef], edit: 
             let mut o = saito_core::core::consensus::slip::Slip::default();
             o.public_key = ak.pk;
             o.amount = vin.amount;
-            if ty == TransactionType::ATR {
+            // "plain-output": a rebroadcast-typed transaction whose output is an ordinary slip (it then
+            // escapes a count of rebroadcast *slips*; only the rebroadcast hash covers it)
+            if ty == TransactionType::ATR && e != "type-atr-plain-output" {
                 o.slip_type = SlipType::ATR;
             }
             t.add_to_slip(o);
